@@ -21,4 +21,9 @@ CONTROLS = [
          expect=r"type-tables/(sqlalchemy-only|with-openapi-utils)/str-"),
     dict(name="BENIGN: an extra spelling added to the parser's table", benign=True,
          edits=[("cdd/sqlalchemy/utils/parse_utils.py", '    "String": "str",\n', '    "String": "str",\n    "VARCHAR": "str",\n')]),
+    dict(name="Enum labels are stringified (seed C05_h shape: Literal[0, 1, 2] comes back as Literal['0', '1', '2'])",
+         edits=[("cdd/sqlalchemy/utils/shared_utils.py", "                    args=val.elts,\n", "                    args=[cdd.shared.ast_utils.set_value(str(cdd.shared.ast_utils.get_value(e_))) for e_ in val.elts],\n")],
+         expect=r"literal-enum/labels-are"),
+    dict(name="BENIGN: Enum labels passed as a tuple of the same nodes", benign=True,
+         edits=[("cdd/sqlalchemy/utils/shared_utils.py", "                    args=val.elts,\n", "                    args=list(tuple(val.elts)),\n")]),
 ]
